@@ -97,6 +97,7 @@ def run_deciders(cfg, n, inputs):
         decs.append(SD.make_decider(c))
     notes = []
     tables_equal = True
+    filtered = [0]
     for i, et in inputs:
         dec, rec = decs[i]
         n0 = len(rec.calls)
@@ -107,14 +108,19 @@ def run_deciders(cfg, n, inputs):
         notes += PL.enc_list(PL.enc_ser, comp) + PL.enc_list(PL.enc_ser, halt) + PL.enc_list(PL.enc_ser, upd)
         for j in range(n):
             if j != i:
+                nj = len(decs[j][1].calls)
                 decs[j][0].on_distributed_update(wire_copy(comp), wire_copy(halt), wire_copy(upd))
+                got = decs[j][1].calls[nj]
+                # side condition of C03_sync_step: the receiver filters nothing out of the sender's note
+                if [len(got[0]), len(got[1]), len(got[2])] != [len(comp), len(halt), len(upd)]:
+                    filtered[0] += 1
         tabs = [PL.enc_list(PL.enc_run, list(d.all_runs())) for d, _ in decs]
         if any(t != tabs[0] for t in tabs):
             tables_equal = False
     out = []
     for d, _ in decs:
         out += [-6] + PL.enc_list(PL.enc_run, list(d.all_runs()))
-    return out + [-4] + notes, tables_equal
+    return out + [-4] + notes, tables_equal and filtered[0] == 0
 
 
 def cluster_case_coq(cfg, n, inputs):
